@@ -128,13 +128,17 @@ class NetRun:
         self.trace = []  # compact per-op trace for samples
         self.poisoned = set()  # nodes whose desired state holds a value the wire cannot carry
         self.stopping = False
+        self.inject_at_save = None
         self.last_change_t = -1.0
         self.last_change_kind = None
         self.last_save_t = -2.0
         self.last_kinds = set()
         self.prev_state_hash = None
         self.cur_kind = None
-        gw_kwargs = {"protocol_version": self.version}
+        # the gateway may be configured with an equivalent spelling (2.0.0, 2.2.1, ...): the model
+        # works with the floor version the independent rule assigns to it
+        gw_kwargs = {"protocol_version": cfg.get("version_str", self.version)}
+        assert tables.version_floor(gw_kwargs["protocol_version"]) == self.version
         self.fs = simfs.SimFS(bufsize=cfg.get("bufsize", 8192))
         if self.persist:
             gw_kwargs["persistence"] = True
@@ -172,6 +176,9 @@ class NetRun:
         if phase == "begin":
             if role in ("timer", "executor") and not self.stopping:
                 self.tick_times.append(sim.now)
+                if self.inject_at_save is not None and persistence.need_save:
+                    data, self.inject_at_save = self.inject_at_save, None
+                    self.world.device.inject(data)
             if self.saves_running and persistence.need_save:
                 self.probe("save_started_while_another_running")
             self.saves_running += 1
@@ -298,7 +305,7 @@ class NetRun:
     def op_line(self, text, ending="\n"):
         return self._deliver_and_observe(text, ending)
 
-    def _deliver_and_observe(self, text, ending):
+    def _deliver_and_observe(self, text, ending, raw=None, at_save=False):
         world = self.world
         gateway = world.gateway
         seen_text = text
@@ -311,15 +318,39 @@ class NetRun:
         self.probe("tierA_lines" if tier == "A" else "tierB_lines")
         snap_before = (W.projection(gateway.sensors), W.transient(gateway.sensors), W.ota_state(gateway))
         t_before = world.sim.time()
-        ok, _ = self.send_line(text, ending)
+        if at_save and self.broker is None:
+            # delivered by the save hook at the instant the next scheduled save begins (inside the
+            # saving thread); whether the pump handles it before the save ends is the scheduler's call
+            self.inject_at_save = text.encode("utf-8", "surrogateescape") + ending.encode()
+            wait = (self.tick_times[-1] + 10.0 - world.sim.now) if self.tick_times else 10.1
+            world.advance(max(0.0, wait) + 0.3)
+            if self.inject_at_save is not None:
+                world.feed(self.inject_at_save)
+                self.inject_at_save = None
+            else:
+                self.probe("line_injected_at_save")
+            ok = True
+        elif raw is not None:
+            ok = world.feed(raw)
+        else:
+            ok, _ = self.send_line(text, ending)
         t_after = world.sim.time()
         out = self.out_lines()
         cbs = self.new_callbacks()
-        self.health()
+        fatal = False
+        try:
+            self.health()
+        except StopRun:
+            fatal = True  # processing raised; what is observable is still compared below, then the run ends
         if self.broker is not None and not ok:
             # not subscribed: the broker never delivers it; nothing may happen
             fields = None
             self.probe("mqtt_not_delivered")
+        if fatal:
+            if fields is not None:
+                exp = self.model.on_line(fields, (int(t_before), int(t_after)))
+                self._check_callbacks(exp, fields, cbs)
+            raise StopRun()
         if fields is None:
             self.probe("rejected_lines")
             snap_after = (W.projection(gateway.sensors), W.transient(gateway.sensors), W.ota_state(gateway))
@@ -491,17 +522,28 @@ class NetRun:
         kind = mism[0]
         detail = {"line": text, "expected": [e["line"] for e in exp.out] + [e["line"] for e in exp.out_set],
                   "got": lines, "model_kind": exp.kind}
+        if exp.wake is not None and kind == "wrong" and isinstance(mism[1], dict) and mism[1].get("kind") == "held:req-reply" \
+                and mism[2].rsplit(";", 1)[0].split(";")[:3] == mism[1]["line"].rsplit(";", 1)[0].split(";")[:3] \
+                and mism[2].split(";")[4:5] == mism[1]["line"].split(";")[4:5]:
+            # the withheld answer to a value request is delivered, but carries the wrong value (C05)
+            self.add(vio("reply-wrong", detail, model_kind="req(held)"))
+            return
         if exp.wake is not None:
             cls = {"missing": "burst-missing", "spurious": "burst-spurious", "wrong": "burst-order"}[kind]
+            item_kind = mism[1]["kind"] if isinstance(mism[1], dict) else None
             if kind == "wrong":
                 pool = list(lines[:len(exp.out)])
                 for item in exp.out:
                     hit = next((g for g in pool if match_item(item, g)), None)
                     if hit is None:
                         cls = "burst-missing"
+                        item_kind = item["kind"]
                         break
                     pool.remove(hit)
-            item_kind = mism[1]["kind"] if isinstance(mism[1], dict) else None
+            if cls == "burst-missing" and item_kind == "held:req-reply":
+                # a value request that had to be answered (reported or pending desired value) got no answer at all
+                self.add(vio("reply-missing", detail, model_kind="req(held)"))
+                return
             self.add(vio(cls, detail, item=item_kind))
             return
         if sleeping_ctx or (self.model.sleeping(fields[0]) and kind != "missing"):
@@ -870,6 +912,16 @@ class NetRun:
             kind = op[0]
             if kind == "line":
                 self.op_line(op[1], op[2] if len(op) > 2 else "\n")
+            elif kind == "line_at_save":
+                self._deliver_and_observe(op[1], "\n", at_save=True)
+            elif kind == "raw":
+                # a frame as the link delivered it, possibly with bytes that are not UTF-8
+                raw = bytes.fromhex(op[1])
+                text = raw.decode("utf-8", "replace")
+                if self.broker is not None:
+                    self.op_line(text.replace("\n", " "))
+                else:
+                    self._deliver_and_observe(text, "\n", raw=raw + b"\n")
             elif kind == "chunk":
                 self.op_chunk([(it[0], it[1] if len(it) > 1 else "\n") for it in op[1]])
             elif kind == "set":
